@@ -3,187 +3,119 @@ From V Require Import Base.Sched Proto.MutexV2Defs Proto.MutexV2Proofs.
 Import ListNotations.
 Import MutexV2.
 
-(* ------------------------------------------------------------------ thread typing, quiescence *)
-Definition stop_a (a : act) : option nat :=
-  match a with
-  | SAcq i | SRel i _ | SCbDone i | SAcq2 i | SRel2 i => Some i
-  | _ => None
+(* ------------------------------------------------------------------ invariants for progress *)
+Definition is_srcholder (k : nat) (x : act * cont) : nat :=
+  match x with
+  | (ARegRel i, _) | (ADeregRel i _ _, _) | (SRel i _, _) | (SRel2 i, _) => eqn i k
+  | _ => 0
   end.
-Definition is_try_a (a : act) : bool := match a with TTry _ | ARelease _ => true | _ => false end.
+Definition is_sacq (k : nat) (x : act * cont) : nat :=
+  match x with
+  | (SAcq i, _) | (SRel i false, _) => eqn i k
+  | _ => 0
+  end.
+(* request_stop is between taking k's callback off the list and callbackCompleted_.store *)
+Definition is_cbregion (k : nat) (x : act * cont) : nat :=
+  match x with
+  | (SRel i true, _) | (SCbDone i, _) => eqn i k
+  | (_, KStopper i) => eqn i k
+  | _ => 0
+  end.
+Definition is_syncstore (k : nat) (x : act * cont) : nat :=
+  match x with (ASyncStore i _, _) => eqn i k | _ => 0 end.
+Definition waits_cb (a : act) : option nat :=
+  match a with ADeregRel k _ true | ADeregWait k _ => Some k | _ => None end.
 
-Record MInv (s : st) : Prop := {
-  m_inv : Inv s;
-  m_len : 2 * nl s <= length (thr s);
-  (* request_stop for locker i runs on thread nl + i; try_lock threads come after *)
-  m_styp_a : forall t a kc i, nth_error (thr s) t = Some (a, kc) -> stop_a a = Some i -> t = nl s + i;
-  m_styp_k : forall t a i, nth_error (thr s) t = Some (a, KStopper i) -> t = nl s + i;
-  m_ttyp : forall t a kc, nth_error (thr s) t = Some (a, kc) -> is_try_a a = true -> 2 * nl s <= t;
-  m_fin : forall t kc, nth_error (thr s) t = Some (AFin, kc) -> kc = KEnd;
-  (* a locker's thread ends only after it released the mutex (or its receiver got set_done: then
-     it stays in AWaitGot) *)
-  m_fi : forall t a, t < nl s -> nth_error (thr s) t = Some (a, KEnd) -> a = AWaitGot t \/ o_released (ops s t) = true;
-  m_rl : forall t a kc i, nth_error (thr s) t = Some (a, kc) -> own_a a = Some i \/ own_k kc = Some i ->
-         o_released (ops s i) = false
+Record PInv (s : st) : Prop := {
+  p_minv : MInv s;
+  p_linv : LInv s;
+  (* the source's spin lock is held by exactly the thread between its lock CAS and unlock store *)
+  p_sl : forall k, b2n (o_src_locked (ops s k)) = sumf (is_srcholder k) (thr s);
+  (* request_stop runs once: after it took the callback no SAcq is pending *)
+  p_c0 : forall k, o_cb (ops s k) = CbPopped -> sumf (is_sacq k) (thr s) = 0;
+  (* a callback taken by request_stop is executing (or about to), unless it has completed or was
+     deregistered from inside its own execution *)
+  p_c1 : forall k, o_cb (ops s k) = CbPopped ->
+         o_cbdone (ops s k) = true \/ o_rdc (ops s k) = true \/ sumf (is_cbregion k) (thr s) >= 1;
+  p_c3 : forall k, o_rdc (ops s k) = true ->
+         (exists a kc, nth_error (thr s) (nl s + k) = Some (a, kc) /\ is_post k (a, kc) = 1) \/ o_res (ops s k) <> [];
+  p_c4 : forall t k c kc, nth_error (thr s) t = Some (ADeregAcq k c, kc) ->
+         o_cb (ops s k) = CbLinked \/ o_cb (ops s k) = CbPopped;
+  p_c5 : forall t a kc k, nth_error (thr s) t = Some (a, kc) -> waits_cb a = Some k ->
+         o_cb (ops s k) = CbPopped /\ t <> nl s + k;
+  p_c6 : forall t a k, nth_error (thr s) t = Some (a, KStopper k) -> act_ix a = Some k;
+  (* the sync_complete handshake of stop_type::start *)
+  p_y0 : forall t a kc i, nth_error (thr s) t = Some (a, kc) -> (a = ASyncLoad i \/ a = AStartedOr i) ->
+         o_started (ops s i) = false;
+  p_y1 : forall t a kc i, nth_error (thr s) t = Some (a, kc) -> (as_a a = Some i \/ as_k kc = Some i) ->
+         o_sync (ops s i) <> None;
+  p_y2 : forall i, o_started (ops s i) = false -> o_completed (ops s i) = true -> o_sync (ops s i) = Some false ->
+         sumf (is_syncstore i) (thr s) >= 1;
+  p_y3 : forall t kc i, nth_error (thr s) t = Some (ASyncSpin i, kc) ->
+         o_sync (ops s i) = Some true \/ sumf (is_syncstore i) (thr s) >= 1
 }.
 
-Lemma released_mono s t s' evs k : step t s = Some (s', evs) ->
-  o_released (ops s k) = true -> o_released (ops s' k) = true.
+Lemma sumf_only {A} (f : A -> nat) l t0 y :
+  nth_error l t0 = Some y -> (forall n x, n <> t0 -> nth_error l n = Some x -> f x = 0) -> sumf f l = f y.
 Proof.
-  intros H Hc. step_split' H Hth; simpl; unfold getop in *; destr_if; simpl; auto.
+  revert t0. induction l as [|a l IH]; intros t0 H0 Hz.
+  - destruct t0; discriminate.
+  - destruct t0; simpl in *.
+    + inversion H0; subst. unfold sumf. simpl.
+      assert (E : sumf f l = 0) by (apply sumf_zero; intros n x Hn; apply (Hz (S n) x); auto).
+      unfold sumf in E. lia.
+    + unfold sumf in *. simpl. rewrite (Hz 0 a) by auto. simpl.
+      apply (IH t0 H0). intros n x Hn Hx. apply (Hz (S n) x); auto.
 Qed.
 
-Lemma released_change s t s' evs k : step t s = Some (s', evs) ->
-  o_released (ops s' k) = true ->
-  o_released (ops s k) = true \/ exists kc, nth_error (thr s) t = Some (AWaitGot k, kc).
+(* a thread that holds the handle of k and a thread that has won try_complete(k) exclude each other *)
+Lemma pre_post_excl s t1 x1 t2 x2 k : Inv s ->
+  nth_error (thr s) t1 = Some x1 -> is_pre k x1 = 1 ->
+  nth_error (thr s) t2 = Some x2 -> is_post k x2 = 1 -> False.
 Proof.
-  intros H Hc.
-  step_split' H Hth; simpl in *; unfold getop in *; destr_if; simpl in *; auto;
-    try (match goal with Q : (_ =? _) = true |- _ => apply Nat.eqb_eq in Q; subst end; simpl in *; auto);
-    try (right; eauto).
+  intros I H1 P1 H2 P2.
+  pose proof (sumf_nth_le (is_pre k) _ _ _ H1) as L1. pose proof (sumf_nth_le (is_post k) _ _ _ H2) as L2.
+  pose proof (v_hs1 _ I k) as A. pose proof (v_hs2 _ I k) as B. pose proof (v_ps _ I k) as C.
+  unfold handles, posts in *. assert (E : sumf (is_pre k) (thr s) + inq s k = 1) by lia.
+  rewrite (B E) in C. simpl in C. lia.
 Qed.
 
-Lemma step_minv s t s' evs : MInv s -> step t s = Some (s', evs) -> MInv s'.
+Lemma two_posts_excl s t1 x1 t2 x2 k : Inv s -> t1 <> t2 ->
+  nth_error (thr s) t1 = Some x1 -> is_post k x1 = 1 ->
+  nth_error (thr s) t2 = Some x2 -> is_post k x2 = 1 -> False.
 Proof.
-  intros M H. pose proof (m_inv _ M) as I.
-  destruct (step_consts _ _ _ _ H) as [_ Enl].
-  constructor.
-  - eapply step_inv; eauto.
-  - rewrite Enl. pose proof (m_len _ M) as L.
-    assert (length (thr s') = length (thr s)); [|lia].
-    clear - H. step_split' H Hth; simpl; unfold ret; simpl; rewrite ?length_set_nth; reflexivity.
-  - intros t0 a0 kc0 i0 H0 Hs. rewrite Enl.
-    step_split' H Hth; simpl in H0;
-    (destruct (nth_thr_cases _ _ _ _ _ _ Hth H0) as [[-> E]|[N E]];
-     [ injection E as Ea Ek; subst a0 kc0; try (destruct kc; simpl in Hs; try kill_ki I Hth);
-       repeat match type of Hs with context [if ?b then _ else _] => destruct b eqn:? end;
-       simpl in Hs; try discriminate Hs; injection Hs as Ei; subst i0;
-       first [ eapply (m_styp_a _ M _ _ _ _ Hth); reflexivity | eapply (m_styp_k _ M _ _ _ Hth) ]
-     | eapply (m_styp_a _ M); eauto ]).
-  - intros t0 a0 i0 H0. rewrite Enl.
-    step_split' H Hth; simpl in H0;
-    (destruct (nth_thr_cases _ _ _ _ _ _ Hth H0) as [[-> E]|[N E]];
-     [ try (destruct kc; simpl in E; try kill_ki I Hth);
-       repeat match type of E with context [if ?b then _ else _] => destruct b eqn:? end;
-       try discriminate E; injection E as Ea Ei; subst;
-       first [ eapply (m_styp_a _ M _ _ _ _ Hth); reflexivity | eapply (m_styp_k _ M _ _ _ Hth) ]
-     | eapply (m_styp_k _ M); eauto ]).
-  - intros t0 a0 kc0 H0 Hs. rewrite Enl.
-    step_split' H Hth; simpl in H0;
-    (destruct (nth_thr_cases _ _ _ _ _ _ Hth H0) as [[-> E]|[N E]];
-     [ injection E as Ea Ek; subst a0 kc0; try (destruct kc; simpl in Hs; try kill_ki I Hth);
-       repeat match type of Hs with context [if ?b then _ else _] => destruct b eqn:? end;
-       simpl in Hs; try discriminate Hs;
-       eapply (m_ttyp _ M _ _ _ Hth); reflexivity
-     | eapply (m_ttyp _ M); eauto ]).
-  - intros t0 kc0 H0.
-    step_split' H Hth; simpl in H0;
-    (destruct (nth_thr_cases _ _ _ _ _ _ Hth H0) as [[-> E]|[N E]];
-     [ try (destruct kc; simpl in E; try kill_ki I Hth);
-       repeat match type of E with context [if ?b then _ else _] => destruct b eqn:? end;
-       try discriminate E; injection E as Ea; subst; reflexivity
-     | eapply (m_fin _ M); eauto ]).
-  - intros t0 a0 Ht0 H0. rewrite Enl in Ht0.
-    pose proof (released_mono _ _ _ _ t0 H) as RM.
-    step_split' H Hth; simpl in H0;
-    (destruct (nth_thr_cases _ _ _ _ _ _ Hth H0) as [[-> E]|[N E]];
-     [ try (destruct kc; simpl in E; try kill_ki I Hth);
-       repeat match type of E with context [if ?b then _ else _] => destruct b eqn:? end;
-       try discriminate E; injection E as Ea; subst
-     | destruct (m_fi _ M _ _ Ht0 E) as [X|X]; [left; exact X|right; apply RM; exact X] ]).
-    all: try (exfalso; pose proof (m_styp_k _ M _ _ _ Hth); lia).
-    all: try (exfalso; pose proof (m_styp_a _ M _ _ _ _ Hth eq_refl); lia).
-    all: try (exfalso; pose proof (m_ttyp _ M _ _ _ Hth eq_refl); lia).
-    all: try (left; f_equal; symmetry; eapply (v_own_k _ I _ _ _ _ Hth); reflexivity).
-    all: try (destruct (m_fi _ M _ _ Ht0 Hth) as [X|X]; [try discriminate X|right; apply RM; exact X]).
-    all: right; assert (Ei : i = t) by (eapply eq_sym, (v_own_a _ I _ _ _ _ Hth); reflexivity); subst i;
-         unfold getop; simpl; rewrite Nat.eqb_refl; reflexivity.
-  - intros t0 a0 kc0 i0 H0 Ho.
-    assert (RC := released_change _ _ _ _ i0 H).
-    destruct (o_released (ops s' i0)) eqn:Er; auto. exfalso. specialize (RC eq_refl).
-    revert Er RC.
-    step_split' H Hth; simpl in H0; intros Er RC;
-    (destruct (nth_thr_cases _ _ _ _ _ _ Hth H0) as [[-> E]|[N E]];
-     [ injection E as Ea Ek; subst a0 kc0
-     | ]);
-    (destruct RC as [RC|[kc1 RC]];
-     [ | try discriminate RC ]).
-    all: try (rewrite (m_rl _ M _ _ _ _ E Ho) in RC; discriminate RC).
-    all: try (destruct kc; simpl in Ho; try kill_ki I Hth).
-    all: try (destruct Ho as [Ho|Ho];
-              repeat match type of Ho with context [if ?b then _ else _] => destruct b eqn:? end;
-              simpl in Ho; try discriminate Ho; injection Ho as Ei; subst i0;
-              first [ rewrite (m_rl _ M _ _ _ _ Hth (or_introl eq_refl)) in RC
-                    | rewrite (m_rl _ M _ _ _ _ Hth (or_intror eq_refl)) in RC ]; discriminate RC).
-    all: injection RC as Ei _; subst i0; apply N;
-         assert (Et : t = i) by (eapply (v_own_a _ I _ _ _ _ Hth); reflexivity);
-         assert (Et0 : t0 = i) by (destruct Ho as [Ho|Ho]; [eapply (v_own_a _ I _ _ _ _ E Ho)|eapply (v_own_k _ I _ _ _ _ E Ho)]);
-         congruence.
+  intros I N H1 P1 H2 P2.
+  pose proof (sumf_two (is_post k) _ _ _ _ _ H1 H2 N) as L.
+  pose proof (v_ps _ I k) as C. unfold posts in C. destruct (o_completed (ops s k)); simpl in C; lia.
 Qed.
 
-Lemma combine_nth_error {A B} (l1 : list A) (l2 : list B) k x y :
-  nth_error (combine l1 l2) k = Some (x, y) -> nth_error l1 k = Some x /\ nth_error l2 k = Some y.
+Lemma step_p_c0 s t s' evs : PInv s -> step t s = Some (s', evs) ->
+  forall k, o_cb (ops s' k) = CbPopped -> sumf (is_sacq k) (thr s') = 0.
 Proof.
-  revert l2 k. induction l1 as [|a l1 IH]; intros l2 k H; simpl in H.
-  - destruct k; discriminate.
-  - destruct l2 as [|b l2]; [destruct k; discriminate|]. destruct k; simpl in *.
-    + inversion H. auto.
-    + apply IH. exact H.
+  intros P H k Hc. pose proof (p_minv _ P) as M. pose proof (m_inv _ M) as I. pose proof (p_c0 _ P k) as E0.
+  step_split' H Hth; simpl; try (destruct kc; simpl; try kill_ki I Hth); destr_if; use_sum Hth;
+    unfold getop in *; simpl in *; eqb_cases; subst; simpl in *;
+    try (specialize (E0 Hc)); try lia; try congruence.
+  all: match type of Hth with nth_error _ _ = Some ?xx => assert (S1 : sumf (is_sacq k) (thr s) = is_sacq k xx) by
+         (apply (sumf_only _ _ t _ Hth); intros n [a0 kc0] Hn Hx;
+          destruct (is_sacq k (a0, kc0)) eqn:Z; auto; exfalso; apply Hn;
+          rewrite (m_styp_a _ M _ _ _ _ Hth eq_refl);
+          destruct a0; simpl in Z; try discriminate; unfold eqn in Z;
+          try (destruct popped; try discriminate);
+          destruct (Nat.eqb_spec i k); try discriminate; subst;
+          eapply (m_styp_a _ M _ _ _ _ Hx); reflexivity) end;
+       simpl in S1; unfold eqn in S1; rewrite Nat.eqb_refl in S1; lia.
 Qed.
 
-Lemma seq_nth_error b n k x : nth_error (seq b n) k = Some x -> x = b + k /\ k < n.
+Lemma step_p_c1 s t s' evs : PInv s -> step t s = Some (s', evs) ->
+  forall k, o_cb (ops s' k) = CbPopped ->
+  o_cbdone (ops s' k) = true \/ o_rdc (ops s' k) = true \/ sumf (is_cbregion k) (thr s') >= 1.
 Proof.
-  revert b k. induction n as [|n IH]; intros b k H; simpl in H.
-  - destruct k; discriminate.
-  - destruct k; simpl in H.
-    + inversion H. lia.
-    + apply IH in H. lia.
-Qed.
-
-Lemma init_thr_pos fx hs nt t a kc :
-  nth_error (thr (init fx hs nt)) t = Some (a, kc) ->
-  let n := length hs in
-  (t < n /\ a = AReg t /\ kc = KTop t) \/
-  (n <= t < 2 * n /\ (a = SAcq (t - n) \/ a = AFin) /\ kc = KEnd) \/
-  (2 * n <= t /\ (exists j, a = TTry j) /\ kc = KEnd).
-Proof.
-  unfold init. cbn [thr]. intros H n. fold n in H.
-  destruct (Nat.ltb_spec t n) as [E1|E1].
-  - left. rewrite nth_error_app1 in H by (rewrite map_length, seq_length; auto).
-    rewrite nth_error_map in H. destruct (nth_error (seq 0 n) t) eqn:E; [|discriminate].
-    apply seq_nth_error in E. simpl in H. inversion H. destruct E as [-> _]. auto.
-  - right. rewrite nth_error_app2 in H by (rewrite map_length, seq_length; auto). rewrite map_length, seq_length in H.
-    assert (Lc : length (combine (seq 0 n) hs) = n) by (rewrite combine_length, seq_length; apply Nat.min_id).
-    destruct (Nat.ltb_spec (t - n) n) as [E2|E2].
-    + left. rewrite nth_error_app1 in H by (rewrite map_length, Lc; auto).
-      rewrite nth_error_map in H. destruct (nth_error (combine (seq 0 n) hs) (t - n)) as [[i b]|] eqn:E; [|discriminate].
-      apply combine_nth_error in E. destruct E as [Es _]. apply seq_nth_error in Es. simpl in Es, H.
-      destruct Es as [-> _]. inversion H. split; [lia|]. split; auto. destruct b; auto.
-    + right. rewrite nth_error_app2 in H by (rewrite map_length, Lc; auto). rewrite map_length, Lc in H.
-      rewrite nth_error_map in H. destruct (nth_error (seq 0 nt) (t - n - n)) eqn:E; [|discriminate].
-      simpl in H. inversion H. split; [lia|]. split; eauto.
-Qed.
-
-Lemma init_minv fx hs nt : MInv (init fx hs nt).
-Proof.
-  constructor.
-  - apply init_inv.
-  - simpl. rewrite !app_length, !map_length, seq_length, combine_length, seq_length, Nat.min_id. lia.
-  - intros t a kc i H Hs. apply init_thr_pos in H. simpl.
-    destruct H as [(H1 & -> & ->)|[(H1 & [->| ->] & ->)|(H1 & [j ->] & ->)]]; simpl in Hs; inversion Hs; subst; lia.
-  - intros t a i H. apply init_thr_pos in H.
-    destruct H as [(H1 & _ & E)|[(H1 & _ & E)|(H1 & _ & E)]]; discriminate.
-  - intros t a kc H Hs. apply init_thr_pos in H. simpl.
-    destruct H as [(H1 & -> & ->)|[(H1 & [->| ->] & ->)|(H1 & [j ->] & ->)]]; simpl in Hs; try discriminate; lia.
-  - intros t kc H. apply init_thr_pos in H.
-    destruct H as [(H1 & E & _)|[(H1 & _ & E)|(H1 & _ & E)]]; try discriminate; auto.
-  - intros t a Ht H. apply init_thr_pos in H. simpl in Ht.
-    destruct H as [(H1 & _ & E)|[(H1 & _ & E)|(H1 & _ & E)]]; try discriminate; lia.
-  - intros t a kc i H Ho. reflexivity.
-Qed.
-
-Lemma minv_reachable fx hs nt sched : MInv (fst (run step sched (init fx hs nt, []))).
-Proof.
-  apply (run_invariant_state _ _ _ step MInv).
-  - intros s t s' ev I H. eapply step_minv; eauto.
-  - apply init_minv.
+  intros P H k Hc. pose proof (p_minv _ P) as M. pose proof (m_inv _ M) as I.
+  pose proof (p_c1 _ P k) as E0. pose proof (p_c0 _ P k) as E1.
+  step_split' H Hth; simpl; try (destruct kc; simpl; try kill_ki I Hth); destr_if; use_sum Hth;
+    unfold getop in *; simpl in *; eqb_cases; subst; simpl in *; try congruence;
+    try (destruct (E0 Hc) as [X|[X|X]]; [left; exact X|right; left; exact X|right; right; lia]; fail);
+    try (right; right; lia); try (left; reflexivity); try (right; left; assumption).
+  Show.
 Qed.
